@@ -99,7 +99,7 @@ def plan_C20(tier):
             {"name": "preemption_sweep", "cfg": {"sweep": True, "sweep_cap": scale(tier, 40, 150)}, "runs": scale(tier, 50, 6000), "batch": 2, "weight": scale(tier, 8.0, 3.0)},
         ] + ([{"name": "many_threads", "cfg": {"force": {"nthreads": 5, "ops_per_thread": 12, "long_rate": 0.3, "repeat_rate": 0.25}},
                "runs": n // 10, "batch": 10}] if tier == "thorough" else []),
-        "budget_s": scale(tier, 36, 1500),
+        "budget_s": scale(tier, 44, 1500),
     }
 
 
